@@ -113,21 +113,18 @@ func checkC22(r *core.Run, p *core.Program) {
 			continue
 		}
 		param := f.Obj.Type().(*types.Signature).Params().At(0)
-		var sw *ast.SwitchStmt
-		for _, s := range f.Decl.Body.List {
-			if x, ok := s.(*ast.SwitchStmt); ok && x.Tag == nil {
-				sw = x
-			}
-		}
-		if sw == nil || len(f.Decl.Body.List) != 1 {
+		// the width selection is a tagless switch, an if / else-if chain, or guards that end in return followed by
+		// the default: all are read as one ordered case list
+		cases, okCases := orderedCases(f.Decl.Body.List)
+		if !okCases {
 			r.Fail("C22.int-partition", "cbe.Encoder."+spec.method+"|shape", f.Decl.Pos(), "the method is no longer a single tagless switch over comparisons of the value with constants; the interval partition cannot be extracted")
 			continue
 		}
+		swPos := f.Decl.Body.Pos()
 		var forms []intForm
 		okShape := true
-		for _, cs := range sw.Body.List {
-			cc := cs.(*ast.CaseClause)
-			form := intForm{pos: cc.Pos()}
+		for _, cc := range cases {
+			form := intForm{pos: cc.Pos}
 			switch {
 			case cc.List == nil:
 				form.bound = ^uint64(0)
@@ -160,6 +157,7 @@ func checkC22(r *core.Run, p *core.Program) {
 				okShape = false
 			}
 			// body: one call on the writer
+			cc.Body = dropTrailingReturn(cc.Body)
 			if len(cc.Body) != 1 {
 				okShape = false
 			} else if es, ok := cc.Body[0].(*ast.ExprStmt); ok {
@@ -193,7 +191,7 @@ func checkC22(r *core.Run, p *core.Program) {
 			forms = append(forms, form)
 		}
 		if !okShape || len(forms) < 5 {
-			r.Fail("C22.int-partition", "cbe.Encoder."+spec.method+"|shape", sw.Pos(), "a case of the width-selection switch is not `predicate(value)` / `value == 0` with a single writer call; the partition cannot be extracted")
+			r.Fail("C22.int-partition", "cbe.Encoder."+spec.method+"|shape", swPos, "a case of the width-selection switch is not `predicate(value)` / `value == 0` with a single writer call; the partition cannot be extracted")
 			continue
 		}
 		choose := func(v uint64) (string, bool) {
@@ -252,7 +250,7 @@ func checkC22(r *core.Run, p *core.Program) {
 				break
 			}
 		}
-		r.Check("C22.int-partition", "cbe.Encoder."+spec.method+"|minimal-form-on-whole-domain", sw.Pos(), bad == "", bad)
+		r.Check("C22.int-partition", "cbe.Encoder."+spec.method+"|minimal-form-on-whole-domain", swPos, bad == "", bad)
 		r.Count("C22.int-partition critical points", len(pts))
 	}
 	// writer sizes used by the oracle = flush lengths in the source
@@ -271,7 +269,7 @@ func checkC22(r *core.Run, p *core.Program) {
 	if f := findFn(p, "cbe", "Writer.WriteTypedInt"); f != nil {
 		e := &effectCtx{a: a, p: p}
 		got := e.summarize(f.Obj)
-		r.Check("C22.int-partition", "cbe.Writer.WriteTypedInt|length-prefix", f.Decl.Pos(), strings.Contains(got, "FlushBufferFirstBytes($v1+2)") , "variable-length integer must flush 2+byteCount bytes; it does `"+got+"`")
+		r.Check("C22.int-partition", "cbe.Writer.WriteTypedInt|length-prefix", f.Decl.Pos(), lengthPrefixOK(info, f), "variable-length integer must store the bytes at Buffer[2+i], the count at Buffer[1] and flush 2+byteCount bytes; it does `"+got+"`")
 	}
 
 	// ---- float order
@@ -367,7 +365,7 @@ func checkC22(r *core.Run, p *core.Program) {
 	if f := findFn(p, "cbe", "Writer.WriteFloat16"); f != nil {
 		e := &effectCtx{a: a, p: p}
 		got := e.summarize(f.Obj)
-		r.Check("C22.float-order", "cbe.Writer.WriteFloat16|upper-16-bits", f.Decl.Pos(), strings.Contains(got, ">>16"), "WriteFloat16 must write the upper 16 bits of the float32 pattern; it does `"+got+"`")
+		r.Check("C22.float-order", "cbe.Writer.WriteFloat16|upper-16-bits", f.Decl.Pos(), shiftsFloat32BitsBy(info, f, 16), "WriteFloat16 must write the upper 16 bits of the float32 pattern; it does `"+got+"`")
 	}
 
 	// ---- short headers
@@ -379,7 +377,7 @@ func checkC22(r *core.Run, p *core.Program) {
 		}
 		e := &effectCtx{a: a, p: p}
 		got := e.summarize(f.Obj)
-		okS := strings.Contains(got, "if(!(*cbe.Encoder).writeSmallArrayHeader(") && strings.Index(got, "writeSmallArrayHeader") < strings.Index(got+"WriteArrayHeader(", "WriteArrayHeader(")
+		okS := longHeaderOnlyAfterFailedShort(p, info, f)
 		r.Check("C22.short-header", "cbe.Encoder."+name+"|short-first", f.Decl.Pos(), okS, "the short array header must be tried before the long form; the method does `"+got+"`")
 	}
 	if f := findFn(p, "cbe", "Encoder.OnArrayChunk"); f == nil {
@@ -427,4 +425,342 @@ func checkC22(r *core.Run, p *core.Program) {
 		}
 	}
 	r.Floor("C22.short-header", "short-form code constants", nShort, 12)
+}
+
+type orderedCase struct {
+	Pos  token.Pos
+	List []ast.Expr // nil: default
+	Body []ast.Stmt
+}
+
+func dropTrailingReturn(b []ast.Stmt) []ast.Stmt {
+	if len(b) > 0 {
+		if ret, ok := b[len(b)-1].(*ast.ReturnStmt); ok && len(ret.Results) == 0 {
+			return b[:len(b)-1]
+		}
+	}
+	return b
+}
+
+// orderedCases reads a function body that is one first-match selection - a tagless switch, an if / else-if chain
+// (with or without final else), or `if c { …; return }` guards followed by the default statements - as the ordered
+// list of its cases.
+func orderedCases(body []ast.Stmt) ([]orderedCase, bool) {
+	if len(body) == 1 {
+		if sw, ok := body[0].(*ast.SwitchStmt); ok && sw.Tag == nil && sw.Init == nil {
+			var out []orderedCase
+			for _, c := range sw.Body.List {
+				cc := c.(*ast.CaseClause)
+				for _, b := range cc.Body {
+					if br, isBr := b.(*ast.BranchStmt); isBr && br.Tok == token.FALLTHROUGH {
+						return nil, false
+					}
+				}
+				out = append(out, orderedCase{cc.Pos(), cc.List, cc.Body})
+			}
+			return out, true
+		}
+	}
+	var out []orderedCase
+	for i := 0; i < len(body); i++ {
+		ifs, ok := body[i].(*ast.IfStmt)
+		if !ok || ifs.Init != nil {
+			// the remaining statements are the default, allowed only after guards that all end in return
+			if len(out) == 0 {
+				return nil, false
+			}
+			out = append(out, orderedCase{body[i].Pos(), nil, body[i:]})
+			return out, true
+		}
+		for {
+			out = append(out, orderedCase{ifs.Pos(), []ast.Expr{ifs.Cond}, ifs.Body.List})
+			switch e := ifs.Else.(type) {
+			case nil:
+				if i < len(body)-1 {
+					// more statements follow: this guard must leave the function
+					bl := ifs.Body.List
+					if len(bl) == 0 {
+						return nil, false
+					}
+					if _, isRet := bl[len(bl)-1].(*ast.ReturnStmt); !isRet {
+						return nil, false
+					}
+				}
+			case *ast.BlockStmt:
+				if i != len(body)-1 {
+					return nil, false
+				}
+				out = append(out, orderedCase{e.Pos(), nil, e.List})
+				return out, true
+			case *ast.IfStmt:
+				if i != len(body)-1 || e.Init != nil {
+					return nil, false
+				}
+				ifs = e
+				continue
+			}
+			break
+		}
+	}
+	return out, len(out) > 0
+}
+
+// linearTerm reads `x`, `x + c`, `c + x` (c a constant expression) as (object of x, value of c).
+func linearTerm(info *types.Info, e ast.Expr) (types.Object, int64, bool) {
+	e = stripParens(e)
+	if be, ok := e.(*ast.BinaryExpr); ok && be.Op == token.ADD {
+		if k, isC := constInt(info, be.Y); isC {
+			if o := objOf(info, be.X); o != nil {
+				return o, k, true
+			}
+		}
+		if k, isC := constInt(info, be.X); isC {
+			if o := objOf(info, be.Y); o != nil {
+				return o, k, true
+			}
+		}
+		return nil, 0, false
+	}
+	if o := objOf(info, e); o != nil {
+		if _, isC := o.(*types.Const); !isC {
+			return o, 0, true
+		}
+	}
+	return nil, 0, false
+}
+
+// lengthPrefixOK: in Writer.WriteTypedInt there is a counter n such that the payload bytes are stored at
+// Buffer[n+2] inside the loop that also advances n by one per byte, Buffer[1] receives byte(n), and the flush
+// length is n+2.
+func lengthPrefixOK(info *types.Info, f *fn) bool {
+	var counter types.Object
+	flushOK := false
+	inspectCalls(info, f.Decl.Body, func(call *ast.CallExpr, cal *types.Func) {
+		if cal != nil && cal.Name() == "FlushBufferFirstBytes" && len(call.Args) == 1 {
+			if o, k, ok := linearTerm(info, call.Args[0]); ok && k == 2 {
+				counter, flushOK = o, true
+			}
+		}
+	})
+	if !flushOK {
+		return false
+	}
+	isBufferAt := func(e ast.Expr) (ast.Expr, bool) {
+		ix, ok := stripParens(e).(*ast.IndexExpr)
+		if !ok {
+			return nil, false
+		}
+		if sel, ok := stripParens(ix.X).(*ast.SelectorExpr); !ok || sel.Sel.Name != "Buffer" {
+			return nil, false
+		}
+		return ix.Index, true
+	}
+	countStored, payloadStored, advanced := false, false, false
+	ast.Inspect(f.Decl.Body, func(n ast.Node) bool {
+		loop, ok := n.(*ast.ForStmt)
+		if !ok {
+			return true
+		}
+		ast.Inspect(loop, func(m ast.Node) bool {
+			switch s := m.(type) {
+			case *ast.AssignStmt:
+				if len(s.Lhs) == 1 {
+					if idx, ok := isBufferAt(s.Lhs[0]); ok {
+						if o, k, ok := linearTerm(info, idx); ok && o == counter && k == 2 {
+							payloadStored = true
+						}
+					}
+					if objOf(info, s.Lhs[0]) == counter && s.Tok == token.ADD_ASSIGN {
+						if k, isC := constInt(info, s.Rhs[0]); isC && k == 1 {
+							advanced = true
+						}
+					}
+					if objOf(info, s.Lhs[0]) == counter && s.Tok == token.ASSIGN {
+						if o, k, ok := linearTerm(info, s.Rhs[0]); ok && o == counter && k == 1 {
+							advanced = true
+						}
+					}
+				}
+			case *ast.IncDecStmt:
+				if s.Tok == token.INC && objOf(info, s.X) == counter {
+					advanced = true
+				}
+			}
+			return true
+		})
+		return true
+	})
+	ast.Inspect(f.Decl.Body, func(n ast.Node) bool {
+		if s, ok := n.(*ast.AssignStmt); ok && len(s.Lhs) == 1 && len(s.Rhs) == 1 {
+			if idx, ok := isBufferAt(s.Lhs[0]); ok {
+				if k, isC := constInt(info, idx); isC && k == 1 && objOf(info, stripConv(info, s.Rhs[0])) == counter {
+					countStored = true
+				}
+			}
+		}
+		return true
+	})
+	return countStored && payloadStored && advanced
+}
+
+// shiftsFloat32BitsBy: the function contains `math.Float32bits(…) >> k` with k of the given value (a literal or
+// a named constant).
+func shiftsFloat32BitsBy(info *types.Info, f *fn, want int64) bool {
+	found := false
+	ast.Inspect(f.Decl.Body, func(n ast.Node) bool {
+		be, ok := n.(*ast.BinaryExpr)
+		if !ok || be.Op != token.SHR {
+			return true
+		}
+		k, isC := constInt(info, be.Y)
+		if !isC || k != want {
+			return true
+		}
+		operand := stripParens(be.X)
+		// the pattern may have been put into a local first
+		if id, ok := operand.(*ast.Ident); ok {
+			if init := singleInit(info, f, info.ObjectOf(id)); init != nil {
+				operand = stripParens(init)
+			}
+		}
+		if call, ok := operand.(*ast.CallExpr); ok && isFunc(callee(info, call), "math", "Float32bits") {
+			found = true
+		}
+		return true
+	})
+	return found
+}
+
+// singleInit returns the initialiser of a local that is defined once and never reassigned, nil otherwise.
+func singleInit(info *types.Info, f *fn, obj types.Object) ast.Expr {
+	if obj == nil {
+		return nil
+	}
+	var init ast.Expr
+	writes := 0
+	ast.Inspect(f.Decl.Body, func(n ast.Node) bool {
+		switch s := n.(type) {
+		case *ast.AssignStmt:
+			for i, l := range s.Lhs {
+				if objOf(info, l) == obj {
+					writes++
+					if len(s.Lhs) == len(s.Rhs) {
+						init = s.Rhs[i]
+					}
+				}
+			}
+		case *ast.IncDecStmt:
+			if objOf(info, s.X) == obj {
+				writes += 2
+			}
+		case *ast.ValueSpec:
+			for i, nm := range s.Names {
+				if info.Defs[nm] == obj {
+					writes++
+					if i < len(s.Values) {
+						init = s.Values[i]
+					}
+				}
+			}
+		case *ast.UnaryExpr:
+			if s.Op == token.AND && objOf(info, s.X) == obj {
+				writes += 2
+			}
+		}
+		return true
+	})
+	if writes == 1 {
+		return init
+	}
+	return nil
+}
+
+// longHeaderOnlyAfterFailedShort: in the event method and the unexported Encoder helpers it calls, there is at least
+// one Writer.WriteArrayHeader call and each is reached only after Encoder.writeSmallArrayHeader has been tried
+// and returned false: inside `if !small(..) {…}`, in the else of `if small(..)`, or after `if small(..) { return }`.
+func longHeaderOnlyAfterFailedShort(p *core.Program, info *types.Info, root *fn) bool {
+	isSmall := func(e ast.Expr) bool {
+		call, ok := stripParens(e).(*ast.CallExpr)
+		if !ok {
+			return false
+		}
+		cal := callee(info, call)
+		return cal != nil && cal.Name() == "writeSmallArrayHeader" && recvNamed(cal) != nil && recvNamed(cal).Obj().Name() == "Encoder"
+	}
+	var hasSmallConj func(e ast.Expr) bool
+	hasSmallConj = func(e ast.Expr) bool {
+		e = stripParens(e)
+		if isSmall(e) {
+			return true
+		}
+		if be, ok := e.(*ast.BinaryExpr); ok && be.Op == token.LAND {
+			return hasSmallConj(be.X) || hasSmallConj(be.Y)
+		}
+		return false
+	}
+	isNotSmall := func(e ast.Expr) bool {
+		u, ok := stripParens(e).(*ast.UnaryExpr)
+		return ok && u.Op == token.NOT && isSmall(u.X)
+	}
+	seen := map[*types.Func]bool{}
+	nLong, allGuarded := 0, true
+	var visit func(d *ast.FuncDecl, depth int)
+	visit = func(d *ast.FuncDecl, depth int) {
+		var stack []ast.Node
+		ast.Inspect(d.Body, func(n ast.Node) bool {
+			if n == nil {
+				stack = stack[:len(stack)-1]
+				return true
+			}
+			stack = append(stack, n)
+			call, ok := n.(*ast.CallExpr)
+			if !ok {
+				return true
+			}
+			cal := callee(info, call)
+			if cal == nil {
+				return true
+			}
+			if cal.Name() == "WriteArrayHeader" && recvNamed(cal) != nil && recvNamed(cal).Obj().Name() == "Writer" {
+				nLong++
+				guarded := false
+				for i := len(stack) - 2; i >= 0 && !guarded; i-- {
+					child := stack[i+1]
+					switch anc := stack[i].(type) {
+					case *ast.IfStmt:
+						if child == ast.Node(anc.Body) && isNotSmall(anc.Cond) {
+							guarded = true
+						}
+						if anc.Else != nil && child == ast.Node(anc.Else) && hasSmallConj(anc.Cond) {
+							guarded = true
+						}
+					case *ast.BlockStmt:
+						for _, st := range anc.List {
+							if ast.Node(st) == child {
+								break
+							}
+							if ifs, ok := st.(*ast.IfStmt); ok && ifs.Else == nil && hasSmallConj(ifs.Cond) && len(ifs.Body.List) > 0 {
+								if _, isRet := ifs.Body.List[len(ifs.Body.List)-1].(*ast.ReturnStmt); isRet {
+									guarded = true
+								}
+							}
+						}
+					}
+				}
+				if !guarded {
+					allGuarded = false
+				}
+				return true
+			}
+			if depth < 3 && !cal.Exported() && !seen[cal] && recvNamed(cal) != nil && recvNamed(cal).Obj().Name() == "Encoder" {
+				seen[cal] = true
+				if hd := p.FuncDecl(cal); hd != nil && hd.Body != nil {
+					visit(hd, depth+1)
+				}
+			}
+			return true
+		})
+	}
+	visit(root.Decl, 0)
+	return nLong > 0 && allGuarded
 }
